@@ -98,7 +98,7 @@ def case(draw, chain=False):
     r["charges"] = base["rcharges"]
     r["groups"] = base["rgroups"]
     copies = base["meta"]["copies"]
-    in_copy = [i for c in copies for i in range(c["start"], c["start"] + n)]
+    in_copy = [i for c in copies for i in c["idx"]]
     outside = [i for i in range(N) if i not in in_copy]
     modes = {}
     for k in M.KINDS:
@@ -115,7 +115,7 @@ def case(draw, chain=False):
             nt = draw(hperm.integers(1, 3))
             terms, types = [], []
             # inside copies (same relative atoms in every copy and not), outside, across
-            for pool in ([c["start"] + i for i in range(n)] for c in copies):
+            for pool in (list(c["idx"]) for c in copies):
                 t, ty = draw(terms_over(pool, size, 2, nt))
                 terms += t
                 types += ty
@@ -146,7 +146,7 @@ def case(draw, chain=False):
                 for t in r[k + "s"]:
                     if all(j in sh for j in t) and draw(st.booleans()):
                         c = copies[draw(hperm.integers(0, len(copies) - 1))]
-                        img = [c["start"] + sh[j] for j in t]
+                        img = [c["idx"][sh[j]] for j in t]
                         how = draw(st.sampled_from(["fwd", "rev", "rot"]))
                         img = img if how == "fwd" else img[::-1] if how == "rev" else img[1:] + img[:1]
                         if min(tuple(img), tuple(img[::-1])) not in [min(tuple(x), tuple(x[::-1])) for x in s[k + "s"]]:
